@@ -243,12 +243,12 @@ PROPS["C16"] = dict(
           "all 64 depths; rapid: values around the depth's own bounds and uniform random) x a Scale[T](h,l) query (sweep: all pairs h>=l in 1..64 x the 11 "
           "integer types). Oracle (math/big): Max/Min/MaxUnsigned = 2^(b-1)-1, -2^(b-1), 2^b-1; Signed/UnsignedValue = clamp, idempotent, order-preserving "
           "on sorted inputs; Scale = 2^(h-l) whenever that fits T. Non-trivial: any depth other than 8 (the only one the examples touch), or a Scale query."
-          ' Scale is called for every (type,h,l) - its result is checked only when it fits - with the element types interleaved in rotating orders; a concurrent pass evaluates different depths from 16 goroutines at once.'),
-    quick=dict(rapid=dict(checks=80000, shards=8)),
-    thorough=dict(rapid=dict(checks=400000, shards=16), fuzz=dict(targets=["FuzzC16"], seconds=20)),
+          ' Scale is called for every (type,h,l) - its result is checked only when it fits - with the element types interleaved in rotating orders; a concurrent pass evaluates different depths from 16 goroutines at once. The six groups of calls run in a drawn order; fresh-process cases (the test binary re-executes itself) make each group the first library call of a process.'),
+    quick=dict(rapid=dict(checks=80000, shards=8), det="TestRegress|TestSweep|TestConcurrent|TestFresh"),
+    thorough=dict(rapid=dict(checks=400000, shards=16), fuzz=dict(targets=["FuzzC16"], seconds=20), det="TestRegress|TestSweep|TestConcurrent|TestFresh"),
     assumptions=COMMON_ASSUME,
     technique="exhaustive enumeration of all 64 depths x boundary values and all Scale depth pairs x types + property-based testing (rapid), compared with math/big",
-    level_text=("All 64 depths, the boundary-dense value set and every Scale(h,l,T) combination are enumerated completely in both tiers; random 64-bit values add sampling."),
+    level_text=("All 64 depths, the boundary-dense value set and every Scale(h,l,T) combination are enumerated completely in both tiers; random 64-bit values add sampling. 48 swept and about one in 2500 drawn cases are evaluated in a fresh process, each of the six call groups first."),
     level_note="Depths outside 1..64 are outside the property.",
 )
 
@@ -309,16 +309,16 @@ PROPS["C18"] = dict(
     rule=("Cases = (operation, element types, channels 1..8, frames 0..4096, destination whole buffer or a window with spare capacity). Operations: Sample/SetSample "
           "and the size methods, AppendSample below and at capacity, Write/Read/WriteStriped/ReadStriped (169 type pairs, nil and uneven members), the nine "
           "conversions (169 instantiations), Append within capacity, channel view get/set, pool Get-use-Put cycle, Slice (local and escaping). Oracle: "
-          "testing.AllocsPerRun(100, op) == 0, escaping Slice <= 1; everything the closure needs is allocated beforehand and headers are restored by struct "
+          "no heap object allocated in 300 calls after a warm-up call (100 calls for shapes above 4096 samples; exact runtime.MemStats totals, garbage collector off, smallest of three attempts), escaping Slice <= 1 per call; everything the closure needs is allocated beforehand and headers are restored by struct "
           "assignment. Non-trivial: frames >= 1 (the operation does work); distinct = distinct (operation, types, shape)."
           ' Also: Append within capacity when both buffers end in partial frames, pool cycle through two by-value copies of the allocator, and a 2x2048 shape in the quick sweep.'),
     quick=dict(rapid=dict(checks=4000, shards=4)),
     thorough=dict(rapid=dict(checks=30000, shards=8)),
     assumptions=COMMON_ASSUME + ["escape analysis and inlining are compiler decisions: the verdict is for go1.23.5 and the generated instantiations/shapes",
-                                 "non-race build, one process per shard (AllocsPerRun pins GOMAXPROCS to 1 and reads process-wide malloc counters)"],
-    technique="property-based testing (rapid) + exhaustive operation x type sweep with testing.AllocsPerRun as the oracle",
+                                 "non-race build, one process per shard (the measurement pins GOMAXPROCS to 1, switches the garbage collector off and reads process-wide malloc counters)"],
+    technique="property-based testing (rapid) + exhaustive operation x type sweep with exact heap-allocation counts (runtime.MemStats) as the oracle",
     level_text=("Every operation x every element type (all 169 conversions) is measured at several shapes in both tiers; rapid samples further shapes and type pairs. Append within capacity also with source and destination being windows of one parent, and of a buffer onto itself. Interleaved get/put cycles of two pools of the same shape for every pair of element types. The 8 x 4096 shape runs for every conversion in the quick tier too. appendSampleOnFullGrownBuffer measures the first call on 32 freshly prepared buffers with runtime.MemStats (minimum of three attempts, at least 16 allocations to count)."),
-    level_note="AllocsPerRun truncates the per-run average, so a one-off allocation by the runtime (e.g. a pool refill after GC) does not count while any per-call allocation does.",
+    level_note="Counts are exact totals (testing.AllocsPerRun would truncate the per-run average and hide an allocation every n-th call); a stray allocation of the runtime is excluded by taking the smallest of three attempts, a pool refill after a collection by switching the collector off while measuring. A period longer than the 300 measured calls is out of reach.",
 )
 PROPS["C11"] = dict(
     pkg="c11", idx=11, race=True,
@@ -368,5 +368,15 @@ for _p in PROPS.values():
     if not _p.get("race"):
         _p["thorough"]["x386"] = dict(checks=min(_p["quick"]["rapid"]["checks"], 20000), shards=2)
         _p["assumptions"] = _p["assumptions"] + ["thorough tier: a second, 32-bit build (GOARCH=386, executed on the same amd64 machine) repeats the quick-size sweeps and rapid cases"]
+
+# what later seeded rounds added to the level descriptions
+_MORE_LEVEL = {
+    "C01": "Every slice handed to an earlier call of a case is re-checked after every later call (ledger); windows of 4090..9000 frames see 3-6 calls; striped input channels may share caller storage (prefixes of one array, pieces of one flat array).",
+    "C10": "Pooled buffers of 258..6000 samples with sparse single-sample writes far apart through a full window (gaps of untouched zeros).",
+    "C12": "One Append between two windows of a parent of 66000..400000 samples (in place with the source before, overlapping and behind the region written; growing) is compared with copy/append on plain slices (Big cases).",
+    "C15": "After every rejected conversion, Append and striped call the same operands are used again in calls with matching shapes, which must succeed with the expected effect.",
+}
+for _id, _t in _MORE_LEVEL.items():
+    PROPS[_id]["level_text"] = PROPS[_id]["level_text"] + " " + _t
 
 NOT_APPLICABLE = {}
